@@ -44,7 +44,8 @@ def build_history(hist, base, k, vary=False, skip=0, syms=None, bare=False):
             # a later segment that carries nothing but its secondary header (or, every fourth packet, even less than that)
             data = bytes([0xE0 + j for j in range(k)])[:k if i % 4 == 1 else max(1, k - 2)]
         if vary:
-            hb = {"shflag": (i + 1) % 2, "type_": (i // 2) % 2, "version": (i * 3) % 8}
+            # vary == 2: the type bit runs 1, 1, 0, 0 instead of 0, 0, 1, 1 (unrecognisable packets come first for a telemetry-only definition)
+            hb = {"shflag": (i + 1) % 2, "type_": ((i + (2 if vary == 2 else 0)) // 2) % 2, "version": (i * 3) % 8}
         else:
             hb = {"shflag": 1 if k else 0}
         p = framing.mk_packet(data, apid=APID_PAIRS[(base + k) % 4][a], seqflags=FLAGS[f], seqcount=counts[a], **hb)
@@ -99,10 +100,29 @@ def tags_of(raw: bytes, k):
     return [raw[i] for i in range(6 + k, len(raw) - 1, 2) if raw[i] ^ raw[i + 1] == 0xFF]
 
 
-def check_history(t: Tally, defn, hist, base, k, states, vary=False, skip=0, alphabet="A", bare=False):
+_TM_ONLY = None
+
+
+def tm_only_definition():
+    """A definition that recognises telemetry packets only (TYPE == 0): what it does not recognise is passed over in silence by default, and
+    has no bearing on anything else."""
+    global _TM_ONLY
+    if _TM_ONLY is None:
+        from mc.spec import Cmp, Container, Doc, header_entries, header_params, header_ptypes, load_doc
+        _TM_ONLY = load_doc(Doc(tuple(header_ptypes()), tuple(header_params()),
+                                (Container("CCSDSPacket", tuple(header_entries()), abstract=True),
+                                 Container("TM", (), base="CCSDSPacket", criteria=(Cmp("TYPE", "==", "0"),)))))
+    return _TM_ONLY
+
+
+def check_history(t: Tally, defn, hist, base, k, states, vary=False, skip=0, alphabet="A", bare=False, tm_only=False):
     syms = SYMS_B if alphabet == "B" else SYMS_C if alphabet == "C" else SYMS
     stream, pkts, meta = build_history(hist, base, k, vary, skip, syms, bare)
     want = model(pkts, meta, k, states)
+    if tm_only:
+        # the combined packet carries the header of its FIRST segment: outputs of type 1 are not recognised and not yielded
+        defn = tm_only_definition()
+        want = [w for w in want if not (w[0] >> 4) & 1]
     got, nwarn = run_impl(defn, stream, k, skip)
     t.evals += 1
     t.transitions += len(hist)
@@ -129,7 +149,7 @@ def check_history(t: Tally, defn, hist, base, k, states, vary=False, skip=0, alp
         t.violation({"kind": "reassembly", "observed": okind, "stale_group_reuse": bool(after_last and okind == "mismatch"),
                      "secondary_header_bytes": k},
                     {"history": [list(syms[s]) for s in hist], "hist_idx": list(hist), "base": base, "k": k, "vary_header_bits": vary, "skip_header_bytes": skip,
-                     "alphabet": alphabet, "bare": bare},
+                     "alphabet": alphabet, "bare": bare, "tm_only": tm_only},
                     expected=[w.hex() for w in want],
                     observed=[g.hex() for g in got] if not isinstance(got, tuple) else list(got), note=why)
 
@@ -149,6 +169,8 @@ def _task(task):
                             check_history(t, defn, hist, base, k, states)
                     if n <= task.get("vary_upto", 4):
                         check_history(t, defn, hist, task["bases"][-1], 0, states, vary=True)
+                        check_history(t, defn, hist, task["bases"][0], 0, states, vary=True, tm_only=True)
+                        check_history(t, defn, hist, task["bases"][0], 0, states, vary=2, tm_only=True)
                         check_history(t, defn, hist, task["bases"][0], (first + n) % 3, states, skip=3 + (first % 2))
                     if n <= task.get("alphabet_b_upto", 4):
                         for base in task["bases"]:
@@ -266,7 +288,7 @@ def run(ctx):
         "exhaustive": True,
         "bound": (f"EVERY history of length <= {max_len} over 16 symbols ({{F,C,L,U}} x 2 APIDs x sequence step {{+1,+2}})"
                   + ("" if ctx.quick else " (length 5, 6 halved by APID symmetry; length 6 with base 16382 and no secondary header)")
-                  + "; histories of length <= 4 also with version/type/secondary-header-flag bits that differ from packet to packet, on a second alphabet ({F,C,L,U} on one APID x sequence step {+1,+2,0 (repeated count),-1}), a third one with steps {1, 1025, 4097, 8193}, histories whose later segments carry only their secondary header (or less), groups of 1023 ... 32769 segments (longer than the counter period), valid and with one skipped count, and as raw records (3 or 4 foreign bytes before every packet, skip_header_bytes) with secondary headers of 0..2 bytes; base sequence counts {0, 16382} (wrap-around inside the history); secondary_header_bytes {0,1,3} on the shorter histories; "
+                  + "; histories of length <= 4 also with version/type/secondary-header-flag bits that differ from packet to packet (decoded by the header-only definition and by one that recognises only type-0 packets), on a second alphabet ({F,C,L,U} on one APID x sequence step {+1,+2,0 (repeated count),-1}), a third one with steps {1, 1025, 4097, 8193}, histories whose later segments carry only their secondary header (or less), groups of 1023 ... 32769 segments (longer than the counter period), valid and with one skipped count, and as raw records (3 or 4 foreign bytes before every packet, skip_header_bytes) with secondary headers of 0..2 bytes; base sequence counts {0, 16382} (wrap-around inside the history); secondary_header_bytes {0,1,3} on the shorter histories; "
                   "every history runs in a fresh generator but all of them on ONE definition object per worker, so group state that outlives a generator "
                   "(or is shared between generators) makes later histories disagree with the model"),
         "rule": ("one evaluation = one history replayed on a fresh generator and on the model; distinct non-trivial = distinct histories containing at "
@@ -282,7 +304,7 @@ def replay(case):
         t = _task_long_groups({"sizes": [case["long_group"]], "base": case["base"]})
         return next((v for v in t.violations if v["case"]["gap_at"] == case["gap_at"]), None)
     t = Tally()
-    check_history(t, header_only_definition(), tuple(case["hist_idx"]), case["base"], case["k"], None, vary=case.get("vary_header_bits", False), skip=case.get("skip_header_bytes", 0), alphabet=case.get("alphabet", "A"), bare=case.get("bare", False))
+    check_history(t, header_only_definition(), tuple(case["hist_idx"]), case["base"], case["k"], None, vary=case.get("vary_header_bits", False), skip=case.get("skip_header_bytes", 0), alphabet=case.get("alphabet", "A"), bare=case.get("bare", False), tm_only=case.get("tm_only", False))
     return t.violations[0] if t.violations else None
 
 
